@@ -237,3 +237,65 @@ PROPS['C03'] = dict(_PUSH_COMMON,
     technique='Coq invariant proofs over the interpreter loop (step bound, capacity invariant, fatal=>overflow) + limit-sweep correspondence under a watchdog',
     design_ref='DESIGN.md §4 C03',
 )
+
+# ---------------------------------------------------------------------------
+# C05: Plushy -> program
+def deep_probe(prop, tier, seed, known):
+    """D7: native stack exhaustion on deeply nested genomes, probed in a child process on a plain
+    8 MiB main-thread stack.  Depths up to 1000 must work; deeper aborts are the recorded finding."""
+    import signal
+    out = []
+    ladder = [1000, 3000, 10000, 30000, 100000, 300000] + ([1000000] if tier == 'thorough' else [])
+    first_abort = None
+    for n in ladder:
+        try:
+            p = subprocess.run([_VH, 'deep', str(n)], stdout=subprocess.PIPE, stderr=subprocess.PIPE, timeout=600)
+            rc = p.returncode
+        except subprocess.TimeoutExpired:
+            rc = -999
+        if rc != 0:
+            first_abort = (n, rc)
+            break
+    prop['_deep'] = dict(ladder=ladder, first_abort=first_abort)
+    if first_abort is None:
+        return out
+    n, rc = first_abort
+    kf = [k for k in known if k['key'] == 'native-stack-deep-nesting']
+    desc = 'a genome of %d consecutive block-opening genes (nesting depth %d) kills the process (exit status %s) in Vec::<PushProgram>::from(Plushy)' % (n, n, rc)
+    if n > 1000 and kf:
+        out.append(('KNOWN-FINDING: property=%s %s [first aborting depth on this run: %d]' % (prop['id'], kf[0]['text'], n), False))
+    else:
+        from driver_main import write_replay
+        path = write_replay(prop['id'], dict(property=prop['id'], kind='failing-input', key='native-stack-deep-nesting' if n > 1000 else 'abort-at-moderate-depth',
+                                             input=[3, 'L(vec![When; %d])' % n], observed=[-2], description=desc,
+                                             how='run `work/target/debug/vh deep %d` (child process, default main-thread stack)' % n))
+        out.append(('VIOLATION property=%s replay=%s' % (prop['id'], path), True))
+    return out
+
+def c05_bucket(inp, obs):
+    kinds = {0: 'exhaustive', 1: 'random', 2: 'num_opens-probe', 3: 'adversarial'}
+    n = len(inp[1])
+    return ['stream=%s' % kinds.get(inp[0], '?'), 'genes=%s' % (n if n < 10 else '%d+' % (n // 10 * 10))]
+
+def c05_nontrivial(inp, obs):
+    # at least one block-opening instruction and one close marker
+    gs = inp[1]
+    return any(g == -1 for g in gs) and any(isinstance(g, list) and g[0] in (27, 28, 29, 30) for g in gs)
+
+def c05_describe(inp, obs):
+    return 'genome: ' + ' '.join('}' if g == -1 else instr_name(g) for g in inp[1][:80]) + (' ...' if len(inp[1]) > 80 else '')
+
+PROPS['C05'] = dict(
+    corr='CorrC05', judge='(judge_cases judge)', show='(show_cases show [])',
+    coq_targets=['theories/Props/C05.vo', 'theories/Corr/CorrC05.vo'],
+    bucket=c05_bucket, nontrivial=c05_nontrivial, describe=c05_describe, classify=lambda i, o: 'parse-mismatch',
+    extra=deep_probe,
+    rule='num_opens of every instruction variant the code has (strum iteration) observed through the parse; ALL gene sequences of length <= 6 (quick) / 8 (thorough) over {close, position-tagged 0-opener, 1-opener (When), 2-opener (IfElse)}; random genomes up to 400 genes over the whole instruction set; adversarial shapes (all closes, all openers to depth 1000, alternating). The resulting Vec<PushProgram> is compared structurally with parse_top evaluated in coqc. Non-trivial: the genome has at least one opener and one close. The native-stack ladder (1000 .. 300000 nested openers) runs in a child process.',
+    trusted=['structural observation of PushProgram through pattern matching'],
+    assumptions=['nesting depth <= 1000 on the implementation side of the correspondence; deeper nesting: known finding native-stack-deep-nesting'],
+    level_text='Theorems (Props/C05.v) about the fuelled recursive-descent model of parse_from_plushy: totality (fuel S(length g) always suffices, so no failure branch exists), flatten(parse g) = instructions of g in order, the shape invariant (an instruction opening k blocks is followed by exactly k blocks, blocks nowhere else), a top-level close is ignored, a trailing close changes nothing (open blocks are closed at the end). Tied to the code exhaustively on small genomes and on random/adversarial ones.',
+    level_note='Trusted: Coq kernel; harness+driver. Native stack exhaustion on extreme nesting is outside the model (known finding).',
+    technique='Coq proofs by induction on fuel over a recursive-descent parser model + exhaustive small-scope and random differential correspondence',
+    design_ref='DESIGN.md §4 C05',
+)
+PROPS['C03']['extra'] = deep_probe
